@@ -45,7 +45,7 @@ const HARD_KINDS: [ErrorKind; 4] = [ErrorKind::Other, ErrorKind::BrokenPipe, Err
 
 pub fn run(ctx: &mut Ctx, reg: &Registry) {
     let subs = subjects(reg);
-    let stride = ctx.t(6, 1);
+    let stride = ctx.t(2, 1);
     for s in subs.iter() {
         if !ctx.mine(s.index) || !ctx.wants_type(&s.label) {
             continue;
